@@ -142,6 +142,48 @@ pub fn run(ctx: &mut Ctx) {
         ctx.case("differential_reader_auth", json!({"registry": i % 3, "original": ra_a, "restored": ra_b}), ciborium::Value::Bool(same), None, Some(("c14.spec_same", vec![])), true);
         ctx.rng = rng;
     }
+    // the reader's certificate EXPIRES between two reader-authenticated requests of one session: the session object that
+    // lived through both and its copy restored after the first one must judge the second request alike
+    {
+        let mut rng = ctx.rng.clone();
+        let mut pki = crate::pki::Pki::generate(&mut rng);
+        let now = std::time::SystemTime::now().duration_since(std::time::UNIX_EPOCH).unwrap().as_secs();
+        if let Some(c) = crate::pki::leaf_cert_valid(&pki.reader_key, &pki.reader_ca_key, "CN=Test Reader CA,C=US", "CN=Test Reader,C=US", crate::pki::EKU_READER, 91, now - 60, now + 3) { pki.reader = c; }
+        let (m, _k) = issue(&mut rng, &pki, MDL, [(NS.to_string(), [("family_name".to_string(), ciborium::Value::Text("Doe".into()))].into_iter().collect())].into_iter().collect(), isomdl::definitions::DigestAlgorithm::SHA256, false);
+        use isomdl::definitions::x509::trust_anchor::TrustPurpose;
+        if let Ok(e) = establish(documents_of(vec![m]), None, &request_specs()[0], Default::default(), registry(vec![(pki.reader_ca.clone(), TrustPurpose::ReaderCa)])) {
+            let de = base64::decode_config(e.qr.strip_prefix("mdoc:").unwrap(), base64::Config::new(base64::CharacterSet::UrlSafe, false)).unwrap();
+            let est = crate::runner::from_bytes(&e.establishment).unwrap();
+            let erk = match map_get(&est, "eReaderKey") { Some(ciborium::Value::Tag(24, b)) => b.as_bytes().unwrap().clone(), _ => vec![] };
+            use der::Encode;
+            let reader_der = pki.reader.to_der().unwrap();
+            let mut make = |dev: &device::SessionManager, rng: &mut rand::rngs::StdRng| -> Vec<u8> {
+                let items = crate::c11::items_request_bytes(rng, false);
+                let ra = crate::c11::reader_auth(&pki.reader_key, Some(reader_der.clone()), None, -7, &crate::c11::rab(&de, &erk, &items), false);
+                let request = ciborium::Value::Map(vec![(text("version"), text("1.0")), (text("docRequests"), arr(vec![ciborium::Value::Map(vec![
+                    (text("itemsRequest"), ciborium::Value::Tag(24, Box::new(bytes(&items)))), (text("readerAuth"), ra)])]))]);
+                let (dk, _) = dev_view(dev);
+                session_data(Some(&aes_encrypt(&dk.sk_reader, &iso_iv(false, dk.reader_ctr as u32 + 1), &crate::runner::to_bytes(&request))), None)
+            };
+            let status = |o: &isomdl::presentation::authentication::RequestAuthenticationOutcome| match o.reader_authentication {
+                isomdl::presentation::authentication::AuthenticationStatus::Unchecked => 0u64,
+                isomdl::presentation::authentication::AuthenticationStatus::Invalid => 1,
+                isomdl::presentation::authentication::AuthenticationStatus::Valid => 2 };
+            let mut a = e.dev.clone();
+            let msg1 = make(&a, &mut rng);
+            let first = catch(|| a.handle_request(&msg1)).map(|o| status(&o)).unwrap_or(9);
+            if let Ok(mut b) = device::SessionManager::parse(a.stringify().expect("stringify")) {
+                std::thread::sleep(std::time::Duration::from_secs(4));
+                let msg2 = make(&a, &mut rng);
+                let ra_a = catch(|| a.handle_request(&msg2)).map(|o| status(&o)).unwrap_or(9);
+                let ra_b = catch(|| b.handle_request(&msg2)).map(|o| status(&o)).unwrap_or(9);
+                let same = ra_a == ra_b && a.stringify().ok() == b.stringify().ok();
+                ctx.count(&format!("reader_auth_across_expiry:first={first} original={ra_a} restored={ra_b}"));
+                ctx.case("differential_reader_auth_across_expiry", json!({"first_request": first, "original": ra_a, "restored": ra_b}), ciborium::Value::Bool(same), None, Some(("c14.spec_same", vec![])), true);
+            }
+        }
+        ctx.rng = rng;
+    }
     // device keys on every curve, and MAC device authentication: a session restored BEFORE prepare_response, and one
     // restored MID-SIGNING, must offer the same payloads and hand out the same response as the untouched object
     {
